@@ -744,10 +744,13 @@ def run(chk):
         return f
     n_dis = 0
     for k, b in sorted(P.bodies.items()):
+        if getattr(chk, "_overlay", None):
+            break      # the same source is decided on the default build; the finding it reports there is keyed without a configuration prefix
         if k.startswith("emit::span::SpanGuard::<") and not b.is_closure and b.argc >= 2:
             n_dis += 1
             chk.ob("C05.R9.disarmed:%s" % re.sub(r"::<[^>]*>", "", k), "no caller-supplied code runs between taking the guard apart and rebuilding it", disarmed_rule(b))
-    chk.floor("SpanGuard methods with parameters examined for user calls while disarmed", n_dis, 5)
+    if not getattr(chk, "_overlay", None):
+        chk.floor("SpanGuard methods with parameters examined for user calls while disarmed", n_dis, 5)
     return chk
 
 
